@@ -55,3 +55,24 @@ Example C20_exclude_dflt :
   read (add_lookup_references [k] (Some [115]%Z) [a; b] true) = [(a, [k]); (b, [k])].
 Proof. exact exclude_dflt_example. Qed.
 Print Assumptions C20_exclude_dflt.
+
+(* ---- the same statements about the code AS TRANSLATED from /repo's current source (Generated/FeaGen.v:
+   featureWriters/ast.addLookupReferences; Fea/LookupRefsTied.v proves the translation equal to the model) ---- *)
+From U2F Require Import Generated.FeaGen Fea.LookupRefsTied.
+
+Theorem C20_translated_addLookupReferences_is_the_model : forall out lookups script languages ex,
+  script <> Some [] ->
+  tr_add_lookup_refs out lookups script languages ex = out ++ add_lookup_references lookups script languages ex.
+Proof. exact translated_add_lookup_refs_is_the_model. Qed.
+Print Assumptions C20_translated_addLookupReferences_is_the_model.
+
+Theorem C20_code_every_listed_language_reaches_the_lookups : forall lookups s languages l,
+  s <> [] -> l = dflt \/ In l languages ->
+  ls_get (read (tr_add_lookup_refs [] lookups (Some s) languages false)) l = Some lookups.
+Proof. exact code_every_listed_language_reaches_the_lookups. Qed.
+Print Assumptions C20_code_every_listed_language_reaches_the_lookups.
+
+Theorem C20_code_without_script_plain_references : forall out lookups languages ex,
+  tr_add_lookup_refs out lookups None languages ex = out ++ refs lookups.
+Proof. exact code_no_script_plain_references. Qed.
+Print Assumptions C20_code_without_script_plain_references.
